@@ -85,6 +85,26 @@ pub fn check_case(case: &Case, rc: &RouterConfig) -> Vec<(String, String)> {
             format!("rules {:?} (rank pattern {}, sampling override {:?}): from_routes_rule(.., Some(trace)) = {} / from_routes_rule(.., None) = {}", spec, case.rank_pattern, case.sampling_override, serde_json::to_string(&traced).unwrap_or_default(), serde_json::to_string(&action).unwrap_or_default()),
         ));
     }
+    // the same Action object used for one response code and then asked about another one (what was applied for the first code
+    // stays recorded in the action, it must not leak into the decision for the second)
+    for (c1, c2) in [(404u16, 200u16), (200, 404), (500, 0), (0, 404)] {
+        let mut a = action.clone();
+        a.get_status_code(c1, None);
+        let _ = a.create_filter_body(c1, &[]);
+        a.should_log_request(true, c1, None);
+        let hdrs: Vec<redirectionio::http::Header> = base_headers().into_iter().map(|(name, value)| redirectionio::http::Header { name, value }).collect();
+        let got_h: Vec<(String, String)> = a.filter_headers(hdrs, c2, false, None).into_iter().map(|h| (h.name, h.value)).collect();
+        let status2 = a.get_status_code(c2, None);
+        let want2 = reference_obs(&spec, case.sampling_override, c2);
+        if got_h != want2.headers || status2 != want2.status {
+            let (controls, conds) = feature_names(case);
+            out.push((
+                format!("after-another-code:{}:controls={controls}:conds={conds}", if got_h != want2.headers { "headers" } else { "status" }),
+                format!("rules {:?} (rank pattern {}, sampling override {:?}): the action was first used for code {c1}, then filter_headers / get_status_code for code {c2} give {got_h:?} / {status2}, reference {:?} / {}", spec, case.rank_pattern, case.sampling_override, want2.headers, want2.status),
+            ));
+            break;
+        }
+    }
     for c in CODES {
         let got = observe_action(&action, c);
         let want = reference_obs(&spec, case.sampling_override, c);
